@@ -306,6 +306,16 @@ impl Monitor for Mon {
                                 r.target_inc,
                                 downs
                             );
+                            // ... and it is a timeout of suspect_to_down_after: the time the member has to refute
+                            let want = std::time::Duration::from_millis(runner.inst.cfg.suspect_to_down_ms as u64);
+                            ensure!(
+                                *mine[0].1 == want,
+                                "C12:suspicion-timeout-delay",
+                                "the suspicion timeout for {} was scheduled after {:?}, suspect_to_down_after is {:?}",
+                                r.target,
+                                mine[0].1,
+                                want
+                            );
                         }
                     }
                     if r.near_miss > 0 || r.epoch != epoch_before {
@@ -738,7 +748,7 @@ pub fn run(ctx: &Ctx, report: &mut Report) -> EvidenceMeta {
     ctx.run_part(&part_any_order(), report);
     EvidenceMeta {
         level: "exploration",
-        rule: "(1) proptest histories of one instance with 1..6 members in which the probe timers are delivered in deadline order and the inputs around them are generated: Ack / ForwardedAck from the target, an asked helper, an unasked member, an unknown identity or a newer generation of the target, with probe number current / previous / next / random, duplicates, arriving before the indirect stage, between the two timers or after the round; membership changes about the target (Suspect, higher incarnation, Down, rename) and events that abort the round (idle, Down about self, change_identity); plus Ping / PingReq / IndirectPing / IndirectAck / ForwardedAck datagrams with generated fields (incl. naming the instance itself) in every connection state. A round ledger built only from observations (Ping destination and number, PingReq destinations, accepted datagrams by the structural classifier) decides whether genuine evidence existed; at the next round: evidence => no suspicion, no evidence and target still active at the same incarnation => Suspect + exactly one timeout; PingReq only without a direct ack, to <= num_indirect distinct active members other than the target with the right fields; every reply/relay preserves (origin, target, number); the instance's private probe state (hook) must agree with the ledger. (2) 260..330 consecutive acknowledged rounds (direct Ack or ForwardedAck from the asked helper) so that the 8-bit probe number wraps around; (2b) random histories in which issued timers fire in any order, late and more than once: every PingReq is sent by the indirect-probe timer, names the member pinged last with that Ping's number, goes to <= num_indirect distinct active members and never to the target; (3) a real 4-instance chain (origin, helpers, target) run end to end for 4 codecs x probe numbers x each hop lost. Non-trivial: a round with a near-miss input (right sender wrong number, right number wrong sender, duplicate, unasked helper) or an abort; chain runs always."
+        rule: "(1) proptest histories of one instance with 1..6 members in which the probe timers are delivered in deadline order and the inputs around them are generated: Ack / ForwardedAck from the target, an asked helper, an unasked member, an unknown identity or a newer generation of the target, with probe number current / previous / next / random, duplicates, arriving before the indirect stage, between the two timers or after the round; membership changes about the target (Suspect, higher incarnation, Down, rename) and events that abort the round (idle, Down about self, change_identity); plus Ping / PingReq / IndirectPing / IndirectAck / ForwardedAck datagrams with generated fields (incl. naming the instance itself) in every connection state. A round ledger built only from observations (Ping destination and number, PingReq destinations, accepted datagrams by the structural classifier) decides whether genuine evidence existed; at the next round: evidence => no suspicion, no evidence and target still active at the same incarnation => Suspect + exactly one timeout, scheduled after suspect_to_down_after; PingReq only without a direct ack, to <= num_indirect distinct active members other than the target with the right fields; every reply/relay preserves (origin, target, number); the instance's private probe state (hook) must agree with the ledger. (2) 260..330 consecutive acknowledged rounds (direct Ack or ForwardedAck from the asked helper) so that the 8-bit probe number wraps around; (2b) random histories in which issued timers fire in any order, late and more than once: every PingReq is sent by the indirect-probe timer, names the member pinged last with that Ping's number, goes to <= num_indirect distinct active members and never to the target; (3) a real 4-instance chain (origin, helpers, target) run end to end for 4 codecs x probe numbers x each hop lost. Non-trivial: a round with a near-miss input (right sender wrong number, right number wrong sender, duplicate, unasked helper) or an abort; chain runs always."
             .into(),
         assumptions: vec![
             "parts (1) and (2) deliver probe timers in deadline order; part (2b) delivers them in any order and judges only the indirect requests".into(),
